@@ -151,7 +151,10 @@ inline GenDoc genDoc(Rng& g, const DocCfg& c) { DocGen d(g, c); return d.make();
 // ---------------------------------------------------------------------------------------------
 struct ExprGen {
     Rng& g; bool wild; const std::vector<std::string>& names;
-    ExprGen(Rng& g_, bool wild_, const std::vector<std::string>& names_) : g(g_), wild(wild_), names(names_) {}
+    // The relative order of the attributes of one element is implementation-dependent (the native tree keeps the written order, a Xerces
+    // DOM sorts by name), so a type-correct expression uses one attribute name throughout: no node-set can then hold two attributes of an element.
+    std::string attr;
+    ExprGen(Rng& g_, bool wild_, const std::vector<std::string>& names_) : g(g_), wild(wild_), names(names_) { static const std::vector<std::string> an = { "id", "k", "v", "rk", "ref", "k", "id" }; attr = g.pick(an); }
     std::string nm() { return names.empty() ? "a" : names[g.below(names.size())]; }
     std::string nodeTest() {
         switch (g.below(wild ? 12 : 10)) { case 0: case 1: case 2: return nm(); case 3: case 4: return "*"; case 5: return "node()"; case 6: return "text()"; case 7: return "comment()";
@@ -160,9 +163,9 @@ struct ExprGen {
         static const std::vector<std::string> axes = { "child", "descendant", "descendant-or-self", "parent", "ancestor", "ancestor-or-self", "following-sibling", "preceding-sibling", "following", "preceding", "self", "attribute" };
         std::string s; unsigned k = (unsigned)g.below(10);
         if (k == 0) return "."; if (k == 1) return "..";
-        if (k == 2) { static const std::vector<std::string> at = { "@id", "@k", "@v", "@*", "@rk", "@ref", "@p1:x", "@xml:lang" }; return g.pick(at); }
+        if (k == 2) { static const std::vector<std::string> at = { "@id", "@k", "@v", "@*", "@rk", "@ref", "@p1:x", "@xml:lang" }; return wild ? g.pick(at) : "@" + attr; }
         if (k < 6) s = nodeTest();
-        else { std::string ax = wild && g.chance(1, 20) ? std::string("sideways") : g.pick(axes); s = ax + "::" + (ax == "attribute" ? (g.chance(1, 2) ? "*" : "k") : nodeTest()); }
+        else { std::string ax = wild && g.chance(1, 20) ? std::string("sideways") : g.pick(axes); s = ax + "::" + (ax == "attribute" ? (wild ? (g.chance(1, 2) ? std::string("*") : std::string("k")) : attr) : nodeTest()); }
         int np = d > 0 ? (int)g.below(3) : 0; if (np == 2 && !g.chance(1, 3)) np = 1;
         for (int i = 0; i < np; ++i) s += "[" + pred(d - 1) + "]";
         return s;
